@@ -40,7 +40,7 @@ RULE = ('engine: every position-tagged stream of length n over a 3-symbol pointe
         '(giant, fixed sizes, single/pair cuts at +-1 of structure boundaries, byte windows, random, empty chunks, '
         'interleaved queries). non-trivial = stream carries a signature or structured header and the schedule has '
         '>= 2 chunks; distinct by (stream digest, schedule digest)')
-REQUIRED_CLAUSES = ['R-region-exactness', 'V-verdict-invariance', 'Q-queries-pure', 'E-engine-slice-semantics',
+REQUIRED_CLAUSES = ['E-region-exactness-backward-pointers', 'R-region-exactness', 'V-verdict-invariance', 'Q-queries-pure', 'E-engine-slice-semantics',
                     'W-wrapper-verdict-invariance', 'actual-size']
 ASSUMPTIONS = ['ground truth for regions is the presented stream itself (slice semantics)',
                'known findings F1 F3 are attributed by input-only predicates (vlib/known.py, imagegen.vhdx_backward)']
@@ -171,8 +171,9 @@ def chain_class():
                         r = self.region(cur)
                         if not r.data:
                             return
-                        self.new_region(nxt, F.CaptureRegion(r.offset + r.length + r.data[0] % 4,
-                                                             1 + r.data[-1] % 3))
+                        self.new_region(nxt, F.CaptureRegion(
+                            max(0, r.offset + r.length + r.data[0] % 4 - self.CONFIG.get('back', 0)),
+                            1 + r.data[-1] % 3))
                         return          # one region per call, like the VHDX inspector
 
             @property
@@ -217,6 +218,17 @@ def eval_chain(ctx, case):
                 bad = bad or ('online', name, r.offset, r.data.hex(), b)
     t.finish()
     got = {name: t.region(name).data for name in t.context_info}
+    if cfg.get('back'):
+        # backward pointers: what such a region ends up holding depends on the chunking (it may stay empty),
+        # but whatever it holds must be the stream's bytes at its offset
+        ctx.clause('E-region-exactness-backward-pointers')
+        for name in t.context_info:
+            r = t.region(name)
+            if r.data != stream[r.offset:r.offset + len(r.data)] or len(r.data) > r.length:
+                bad = bad or ('final', name, r.offset, r.data.hex(), len(stream))
+        if bad:
+            ctx.fail('E-region-exactness-backward-pointers', case, {'bad': bad})
+        return
     exp = chain_expected(cfg, stream)
     ctx.clause('E-engine-slice-semantics')
     if bad:
@@ -234,6 +246,8 @@ def run_chain(ctx, idx0):
         cfg = {'static': [[rng.randrange(0, 9), rng.randrange(0, 4)] for _ in range(rng.randrange(0, 3))],
                'end': rng.choice([0, 1, 2, 3, 5]), 'p0': [rng.randrange(0, 3), rng.randrange(1, 3)],
                'depth': rng.randrange(1, 5)}
+        if c % 4 == 3:
+            cfg['back'] = rng.choice([2, 3, 5, 8])
         for s in range(ctx.pick(6, 20)):
             n = rng.randrange(2, ctx.pick(11, 13))
             stream = bytes(rng.randrange(0, 4) if rng.random() < 0.8 else rng.getrandbits(8) for _ in range(n))
@@ -504,7 +518,7 @@ def run(ctx):
         eval_stream(ctx, {'kind': 'stream', 'data': data, 'inspectors': [], 'wrapper': True, 'structured': True,
                           'schedules': [['first-64', [64], [], False], ['first-50', [50], [], False]]})
     rng = ctx.rng('streams')
-    nstreams = ctx.pick(900, 40000)
+    nstreams = ctx.pick(900, 8000)
     nsched = ctx.pick(8, 20)
     idx = 0
     for i in range(nstreams):
@@ -529,7 +543,7 @@ def run(ctx):
             data, truth = ig.build(spec)
         elif k < 0.12:
             klass = 'unstructured'
-        scheds = make_schedules(crng, len(data), truth['bounds'], nsched, max_chunks=ctx.pick(3000, 70000))
+        scheds = make_schedules(crng, len(data), truth['bounds'], nsched, max_chunks=ctx.pick(3000, 20000))
         primary = ig.INSPECTOR_OF[spec['gen']]
         insps = [primary]
         other = crng.choice(sorted(sl.fi().ALL_FORMATS))
